@@ -11,15 +11,17 @@ RULE = ("P1: for every integer series of length 3..LMax (quick 5, thorough 7) ov
         "AR::fit of order 1 and 2 on a fresh AND on a previously fitted object (coefficients un-reversed, intercept), "
         "difference(cumsum); AR::predict with given dyadic coefficients for horizons 1..H incl. shifted data; every "
         "second series also times 2^-45 and 2^40 (acovf scales with s^2, acf and Yule-Walker coefficients do not move, "
-        "the intercept scales with s); lags at and beyond the length of the series give 0; forecasting 700 steps with "
-        "persistent coefficients (root 255/256, damped cycle of modulus 0.998) = forecasting k steps, appending them to"
-        " the history and forecasting the rest, for k around 256 and elsewhere; P3 (observations, validated by TLC "
-        "Trace_TimeSeries): simulated stationary AR(1..3) series of length 60..500 at offsets 0 / 50 / 1e6, fitted with"
-        " orders 1..8: Yule-Walker residual, intercept = mean, a fitted object asked about another history of the "
-        "training length (reversed; shifted) answers like an object that merely holds the same coefficients, shift "
-        "equivariance of 20-step forecasts, 1000-step forecast within 2^-20 of the mean; five clean trends of "
-        "3500..9000 points (lag-one autocorrelation beyond 0.999), orders 1..3: Yule-Walker residual within the same "
-        "bound. Case class = (function, offset class / order, fresh or refit).")
+        "the intercept scales with s); lags at and beyond the length of the series give 0; acovf / acf on the same "
+        "buffer after an interior value was edited in place equal the values on a fresh copy; a model whose order was "
+        "re-assigned through the public field p fits at that order; forecasting 700 steps with persistent coefficients "
+        "(root 255/256, damped cycle of modulus 0.998) = forecasting k steps, appending them to the history and "
+        "forecasting the rest, for k around 256 and elsewhere; P3 (observations, validated by TLC Trace_TimeSeries): "
+        "simulated stationary AR(1..3) series of length 60..500 at offsets 0 / 50 / 1e6, fitted with orders 1..8: Yule-"
+        "Walker residual, intercept = mean, a fitted object asked about another history of the training length "
+        "(reversed; shifted) answers like an object that merely holds the same coefficients, shift equivariance of "
+        "20-step forecasts, 1000-step forecast within 2^-20 of the mean; five clean trends of 3500..9000 points (lag-"
+        "one autocorrelation beyond 0.999), orders 1..3: Yule-Walker residual within the same bound. Case class = "
+        "(function, offset class / order, fresh or refit).")
 ASSUMPTIONS = ["exact oracle for orders 1 and 2 on short integer series; orders 3..8 only through the residual observation whose autocorrelations the harness computes from the definition",
                "predict_one (a raw dot-product helper) is not judged: the property speaks about forecasts"]
 EXHAUSTIVE = True
